@@ -233,6 +233,8 @@ type c25Op struct {
 	Tag    string
 	Store  bool // pubGet/claim: keep the result in Slot
 	OldVal string // save: type of the value currently stored (to load it with the right kind)
+	Path2  int    // ctrlHeld: second retarget path
+	Then   string // ctrlHeld: second operation through the same controller reference: retarget | delete
 }
 
 type c25Tx struct {
@@ -322,6 +324,20 @@ func c25Apply(m0 *c25Model, tx c25Tx) (c25Expect, *c25Model) {
 				ev("flow.StorageCapabilityControllerTargetChanged(id: %d, address: %s, path: /storage/t%d)", ct.ID, c25Addr(tx.Signer), op.Path)
 			}
 			logf(i, "ctrlRetarget", "done")
+		case "ctrlHeld":
+			// two operations through ONE controller reference, no lookup in between
+			if ct := s.Ctrls[op.ID]; ct != nil && !ct.Account {
+				ct.Target = op.Path
+				ev("flow.StorageCapabilityControllerTargetChanged(id: %d, address: %s, path: /storage/t%d)", ct.ID, c25Addr(tx.Signer), op.Path)
+				if op.Then == "retarget" {
+					ct.Target = op.Path2
+					ev("flow.StorageCapabilityControllerTargetChanged(id: %d, address: %s, path: /storage/t%d)", ct.ID, c25Addr(tx.Signer), op.Path2)
+				} else {
+					delete(s.Ctrls, op.ID)
+					ev("flow.StorageCapabilityControllerDeleted(id: %d, address: %s)", ct.ID, c25Addr(tx.Signer))
+				}
+			}
+			logf(i, "ctrlHeld", "done")
 		case "ctrlDelete":
 			if ct := s.Ctrls[op.ID]; ct != nil && ct.Account == op.AcctK {
 				delete(s.Ctrls, op.ID)
@@ -470,6 +486,13 @@ func c25Render(tx c25Tx) string {
 			w("log(%s.concat(\"done\"))", p)
 		case "ctrlRetarget":
 			w("s.capabilities.storage.getController(byCapabilityID: %d)?.retarget(/storage/t%d)", op.ID, op.Path)
+			w("log(%s.concat(\"done\"))", p)
+		case "ctrlHeld":
+			second := fmt.Sprintf("h%d.retarget(/storage/t%d)", i, op.Path2)
+			if op.Then != "retarget" {
+				second = fmt.Sprintf("h%d.delete()", i)
+			}
+			w("if let h%d = s.capabilities.storage.getController(byCapabilityID: %d) { h%d.retarget(/storage/t%d); %s }", i, op.ID, i, op.Path, second)
 			w("log(%s.concat(\"done\"))", p)
 		case "ctrlDelete":
 			w("s.capabilities.%s.getController(byCapabilityID: %d)?.delete()", family, op.ID)
@@ -676,6 +699,15 @@ func c25GenHistory(c *core.Ctx, ntx int) []c25Tx {
 				}
 				if ct := s.Ctrls[id]; ct != nil && !ct.Account {
 					lastRetarget[signer] = id
+					if rng.IntN(2) == 0 {
+						// the same controller reference is used twice
+						op.Kind = "ctrlHeld"
+						op.Path2 = (op.Path + 1 + rng.IntN(3)) % 4
+						op.Then = []string{"retarget", "delete"}[rng.IntN(2)]
+						if op.Then == "delete" {
+							delete(lastRetarget, signer)
+						}
+					}
 				}
 			case r < 45:
 				id, ak := pickID()
@@ -1087,7 +1119,7 @@ func c25Run(c *core.Ctx) {
 func init() {
 	core.Register(&core.Prop{
 		ID: "C25",
-		Rule: "seeded histories of up to 16 transactions (1-5 operations each, 1/8 aborted) over 3 accounts, 4 storage target paths, 3 public paths, 4 capability slots per account and 2 inbox names; operations: save/replace/clear the target value (R, Q, S, Int), storage and account issue, getController, setTag, retarget, delete, getControllers, forEachController, publish, unpublish, capabilities.get/borrow/exists on any account, borrow<T>/check<T> on held capabilities, inbox publish/unpublish/claim; " +
+		Rule: "seeded histories of up to 16 transactions (1-5 operations each, 1/8 aborted) over 3 accounts, 4 storage target paths, 3 public paths, 4 capability slots per account and 2 inbox names; operations: save/replace/clear the target value (R, Q, S, Int), storage and account issue, getController, setTag, retarget, delete, two operations (retarget then retarget/delete) through one held controller reference, getControllers, forEachController, publish, unpublish, capabilities.get/borrow/exists on any account, borrow<T>/check<T> on held capabilities, inbox publish/unpublish/claim; " +
 			"borrow types: &R, auth(E)&R, auth(E,F)&R, &{RI}, auth(E)&{RI}, &AnyResource, &S, &Int, &AnyStruct, &Account, auth(Storage)&Account; every history runs on I, V and Vp on fresh runtimes per transaction; distinct = history text",
 		Assumptions: []string{
 			"subtyping and authorization of the fixed type universe are a hand-written table (R<:{RI}<:AnyResource, Q<:AnyResource, S/Int/Account<:AnyStruct; authorization = entitlement-set inclusion)",
@@ -1104,7 +1136,7 @@ func init() {
 		},
 		Floors: map[string]int64{
 			"tx_ok": 2000, "tx_failed": 200, "tx_failed_abort": 100, "tx_failed_publish": 20, "histories_completed": 500, "events_checked": 2000,
-			"op_issue": 1000, "op_save": 500, "op_ctrlGet": 200, "op_ctrlTag": 100, "op_ctrlRetarget": 200, "op_ctrlDelete": 200, "op_ctrlList": 100, "op_ctrlEach": 100,
+			"op_issue": 1000, "op_save": 500, "op_ctrlGet": 200, "op_ctrlTag": 100, "op_ctrlRetarget": 100, "op_ctrlHeld": 50, "op_ctrlDelete": 200, "op_ctrlList": 100, "op_ctrlEach": 100,
 			"op_publish": 200, "op_unpublish": 100, "op_pubGet": 300, "op_pubBorrow": 200, "op_pubExists": 50, "op_capBorrow": 200, "op_capCheck": 200,
 			"op_inboxPub": 100, "op_inboxUnpub": 30, "op_inboxClaim": 50, "inbox_claimed": 10,
 			"result_true_capBorrow": 40, "result_false_capBorrow": 40, "result_true_capCheck": 40, "result_false_capCheck": 40,
